@@ -12,7 +12,8 @@ Directive grammar (each on its own line, inside the template):
   //@sig <replacement signature>                                          (rules X1/X3/X4/X6/X7)
   //@contract            following lines (until next //@) go between signature and body
   //@rule <ID> <count|*> s<delim>regex<delim>replacement<delim>            applied to the body
-  //@rule <ID> <count|*> closure<delim>anchor-regex<delim>header<delim>    every `<anchor>([move] |x| BODY)`: the closure gets
+  //@rule <ID> <count|*> closure<delim>anchor-regex<delim>header<delim>    every `<anchor>[move] |x| BODY` (anchor = the text up to and
+             including the `(` or `, ` before the closure argument): the closure gets
              `header` (`$x` = its parameter) and BODY is kept verbatim as the block the header's contract is proved about
   //@rule <ID> <count|*> block<delim>anchor-regex<delim>replacement<delim>   every `<anchor>{ balanced block }` is replaced by
              `replacement` (`$body` = the block)
@@ -124,39 +125,41 @@ def locate_item(src, mask, item, within):
 
 
 def apply_closure_rule(body, rid, want, delim, rest, counts):
-    """`//@rule <ID> <n> closure<d>anchor-regex<d>header<d>`: every `<anchor>( [move] |x| BODY )` gets the
-    header (with `$x` standing for the parameter name) and BODY, whatever its shape, is kept as the
+    """`//@rule <ID> <n> closure<d>anchor-regex<d>header<d>`: every closure `[move] |x| BODY` that directly
+    follows the anchor (the text up to and including the `(` or `, ` before the closure argument) gets
+    the header (with `$x` standing for the parameter name) and BODY, whatever its shape, is kept as the
     block the header's contract is proved about: the contract comes from the property, not the body."""
     parts = rest.split(delim)
     if len(parts) < 3:
         raise Undecided(f"bad //@rule: {rid} closure")
     anchor, header = parts[0], parts[1]
-    rx = re.compile(anchor + r"\(\s*(move\s+)?\|\s*(\w+)\s*\|\s*", re.S)
+    rx = re.compile("(?:" + anchor + r")\s*(move\s+)?\|\s*(\w+)\s*\|\s*", re.S)
     mask = rscan.code_mask(body)
     out, pos, n = [], 0, 0
     for m in rx.finditer(body):
         if m.start() < pos or not mask[m.start()]:
             continue
-        # the opening paren of the call is the first '(' after the anchor text
-        open_paren = body.index("(", m.start() + len(re.match(anchor, body[m.start():], re.S).group(0)) - 0)
-        depth, i = 0, open_paren
+        # the closure body runs to the first `)` or `,` at nesting depth 0
+        depth, i = 0, m.end()
         while i < len(body):
             if mask[i]:
-                if body[i] in "([{":
+                c = body[i]
+                if c in "([{":
                     depth += 1
-                elif body[i] in ")]}":
-                    depth -= 1
+                elif c in ")]}":
                     if depth == 0:
                         break
+                    depth -= 1
+                elif c == "," and depth == 0:
+                    break
             i += 1
         if i >= len(body):
             raise Undecided(f"lost anchor: rule {rid}: unbalanced call after /{anchor}/")
         inner = body[m.end():i].rstrip()
-        if inner.endswith(","):
-            inner = inner[:-1].rstrip()
         if not (inner.startswith("{") and inner.endswith("}") and rscan.match_brace(inner, rscan.code_mask(inner), 0) == len(inner) - 1):
             inner = "{ " + inner + " }"
-        out.append(body[pos:open_paren + 1])
+        closure_start = m.start() + len(re.match("(?:" + anchor + r")\s*", body[m.start():], re.S).group(0))
+        out.append(body[pos:closure_start])
         out.append((m.group(1) or "") + header.replace("\\n", "\n").replace("$x", m.group(2)) + " " + inner)
         pos = i
         n += 1
